@@ -346,3 +346,34 @@ func lockFacts(lf *leanFile) {
 	}
 	lf.def("ociLockDiscipline", "List String", leanStrList(rows))
 }
+
+// errutilFacts: what ParseErrorResponse does with the response body, and the bound it uses.
+func errutilFacts(lf *leanFile) {
+	const file = "registry/remote/internal/errutil/errutil.go"
+	var readers []string
+	if fd := funcDecl(file, "", "ParseErrorResponse"); fd != nil {
+		ast.Inspect(fd.Body, func(n ast.Node) bool {
+			if c, ok := n.(*ast.CallExpr); ok {
+				for _, a := range c.Args {
+					if exprString(a) == "resp.Body" {
+						readers = append(readers, exprString(c))
+					}
+				}
+			}
+			return true
+		})
+	} else {
+		miss(file + ":ParseErrorResponse")
+	}
+	lf.def("errBodyReaders", "List String", leanStrList(readers))
+	limit := ""
+	if f := parseFile(file); f != nil {
+		ast.Inspect(f, func(n ast.Node) bool {
+			if vs, ok := n.(*ast.ValueSpec); ok && len(vs.Names) == 1 && vs.Names[0].Name == "maxErrorBytes" && len(vs.Values) == 1 {
+				limit = exprString(vs.Values[0])
+			}
+			return true
+		})
+	}
+	lf.def("errBodyLimit", "String", leanStr(limit))
+}
